@@ -47,7 +47,7 @@ class C04(C01):
         if oc == "hang":
             return [{"site": "Mesh.write:hang", "what": "write did not return within the time limit"}]
         if oc != "ok":
-            if oc == "ValueError" and not impl.get("unrealisable"):
+            if oc == "ValueError" and not (impl.get("unrealisable") or impl.get("extreme")):
                 out.append({"site": "Mesh.write:unexpected-ValueError", "what": impl.get("message")})
             return out
         out += pc.oracle_sizes(impl)
